@@ -93,6 +93,9 @@ def generate_playback_tests(ws, crate, harness, features=(), timeout=900, log_di
         mm = re.search(r"fn (kani_concrete_playback_\w+)\(\)", src)
         if not mm or mm.group(1) in seen:
             continue
+        if re.search(r"/// Check for `cover`", src):
+            # the witness of a satisfied cover!, not a counterexample
+            continue
         seen.add(mm.group(1))
         tests.append((mm.group(1), src, relfile))
     if tests:
